@@ -222,6 +222,16 @@ def run(check, repo: Repo) -> None:
             # same straight-line region: same set of dominating branch nodes
             if [d for d in cfg.dominators_of(tn.id) if cfg.nodes[d].kind == "branch"] == [d for d in cfg.dominators_of(vn.id) if cfg.nodes[d].kind == "branch"]:
                 pairs.append((tn, vn))
+    # one store per attribute and straight-line region: a region that stores an attribute twice (assign the other way round, then swap through a temporary, …)
+    # needs the values to be followed through the re-assignments — not done here, so nothing is claimed for it
+    from collections import Counter
+    per_region = Counter()
+    for attr_, nodes_ in stores.items():
+        for n_ in nodes_:
+            per_region[(attr_, tuple(d for d in cfg.dominators_of(n_.id) if cfg.nodes[d].kind == "branch"))] += 1
+    multi = [k_ for k_, v_ in per_region.items() if v_ > 1]
+    if multi:
+        raise AnalysisError(f"SimpleBatcher.__init__: `self.{multi[0][0]}` is stored more than once in one branch (re-assignment / swap) — the split is not evaluated through it")
     check.floor("train/val store pairs", len(pairs), 4)
     for tn, vn in pairs:
         tv, vv = values[(tn.id, "train_indices")], values[(vn.id, "val_indices")]
@@ -443,6 +453,7 @@ def run(check, repo: Repo) -> None:
             except NotArithmetic as exc:
                 ok, detail = False, f"not arithmetic: {exc}"
             check.decide(ok, "C09-R5", f"error_estimate[{arm}]: Σ over the batch ÷ (actual batch extent / num patterns)", detail, bmod.line(st[0]),
+                         definite=not detail.startswith("not arithmetic"),       # the scaling was evaluated to a normal form and differs
                          fail_detail=f"the {arm} loss evaluates to {detail}; it must be SUM·N/B with B the leading extent of the batch tensors "
                                      f"actually summed — a configured batch size differs from it for the last partial batch, for validation "
                                      f"batches and whenever batch_size exceeds the set")
